@@ -2,6 +2,7 @@ import Rfsm.Model.Wire
 import Driver.Desc
 import Driver.Int
 import Driver.Http
+import Driver.Timer
 /-!
 The model driver: one request per line on stdin, one reply per line on stdout.
 `<family> <op> <args…>`; payload strings are hex encoded.  Unknown or malformed requests answer
@@ -14,6 +15,7 @@ def dispatch (line : String) : String :=
   | "desc" :: rest => Driver.Desc.handle rest
   | "int" :: rest => Driver.Int.handle rest
   | "http" :: rest => Driver.Http.handle rest
+  | "timer" :: rest => Driver.Timer.handle rest
   | ["ping"] => "pong"
   | _ => "bad-op"
 
